@@ -1013,6 +1013,9 @@ fn small_programs() -> Vec<(u16, Vec<u16>, bool, &'static str)> {
         // directives beyond it exist but are not valid locations
         (0xFDFE, vec![0x1021, 0x1021, 0x1021, 0xF025, 0xF025], false, "straddle-top"),
         (0xFDFF, vec![0x1021, 0xF025, 0x1021, 0xF025], false, "straddle-top-1"),
+        // an image loaded above user space: no address at all is a valid location
+        (0xFF00, vec![0x1021, 0x1021, 0xF025], false, "above-user-space"),
+        (0xFE01, vec![0x1021, 0xF025], false, "above-user-space-1"),
         // origin 0x0000 / 0x0001: address arithmetic below the origin has nowhere to go but under
         // zero (clamping it would land on address 0, which is in user space here)
         // the program overwrites its own first instruction and loops back to it: paused at the
@@ -1063,7 +1066,21 @@ fn many_writes_sessions(tag: &'static str) -> Vec<(DbgCase, &'static str)> {
         c.breaks.clear();
         c.labels.clear();
         c.cmds = vec![Cmd::Continue, Cmd::Reset, Cmd::Registers, Cmd::Exit];
-        out.push((c, "many-writes"));
+        out.push((c.clone(), "many-writes"));
+        // … and again: after the first reset a few instructions run (their first store hits the
+        // word that was written last before the reset), or a `move` writes that word, then `reset`
+        for k in [5u16, 6, 9, 13] {
+            let mut c2 = c.clone();
+            c2.cmds = vec![Cmd::Continue, Cmd::Reset, Cmd::StepInto(k), Cmd::Reset, Cmd::Registers, Cmd::Exit];
+            out.push((c2, "many-writes"));
+        }
+        let last = base.wrapping_add(count).wrapping_sub(1);
+        let mut c3 = c.clone();
+        c3.cmds = vec![Cmd::Continue, Cmd::Reset, Cmd::MoveMem(Loc::Addr(last), 5), Cmd::Reset, Cmd::PrintMem(Loc::Addr(last)), Cmd::Exit];
+        out.push((c3, "many-writes"));
+        let mut c4 = c.clone();
+        c4.cmds = vec![Cmd::Continue, Cmd::Reset, Cmd::MoveMem(Loc::Addr(base), 5), Cmd::Reset, Cmd::Continue, Cmd::Reset, Cmd::StepInto(5), Cmd::Reset, Cmd::Exit];
+        out.push((c4, "many-writes"));
     }
     out
 }
@@ -1479,8 +1496,11 @@ pub fn run_prop(o: &crate::Opts, tag: &'static str) {
             sink.put(&c.request(), &format!("{} | {}", obs.line, v));
         }
     }
-    if o.shard == 3 % o.nshards && tag == "D12" {
-        for (c, kind) in many_writes_sessions(tag) {
+    if tag == "D12" {
+        for (i, (c, kind)) in many_writes_sessions(tag).into_iter().enumerate() {
+            if i % o.nshards != o.shard {
+                continue;
+            }
             let obs = run_debug(&mut cap, &c);
             let v = if obs.line == "panic" { "-".to_string() } else { verdict(&mut cap, tag, &c, &obs) };
             *kinds.entry(format!("directed-{}:{}", kind, obs.line.split(' ').next().unwrap_or(""))).or_default() += 1;
